@@ -519,6 +519,15 @@ func ObserveDocSeq(text string, trailing bool, order string) *DocOutcome {
 		op := op
 		var e *Escape
 		switch op {
+		case '1', '2', '3', '4', '5', '6', '7', '8', '9':
+			// read that many lexemes and leave the iteration where it is
+			e = Trap("doc.NextLexeme", func() {
+				for i := 0; i < int(op-'0'); i++ {
+					if _, err := d.NextLexeme(); err != nil {
+						return
+					}
+				}
+			})
 		case 'c':
 			e = Trap("doc.Check", func() { o.Check = Describe(d.Check()); note(op, o.Check.String()) })
 		case 'l':
